@@ -42,6 +42,10 @@ func ZZ_C09_Queue() {
 	K := zzrt.Param("K")
 	st := zzredis.NewStore()
 	b := zzStart(st, zzrt.Param("MAXQ"))
+	// in-flight expiry off / on (30 s, the default): with it Read and ReadInflight rewrite
+	// every element they hand out (no virtual time passes, so nothing expires)
+	infl := time.Duration(zzrt.Choice(zzrt.Param("INFL"))) * 30 * time.Second
+	b.cfg.MQTT.InflightExpiry = infl
 	q, _ := b.pe.NewQueueStore(b.cfg, b.noti, "c1")
 	zzrt.Assert(zzQInit(q, true, b.noti) == nil, "queue-init")
 	fl, err := q.ReadInflight(10)
@@ -175,6 +179,7 @@ func ZZ_C09_Queue() {
 	}
 	// ---- restart ----
 	b2 := zzStart(st.Survivor(), zzrt.Param("MAXQ"))
+	b2.cfg.MQTT.InflightExpiry = infl
 	q2, _ := b2.pe.NewQueueStore(b2.cfg, b2.noti, "c1")
 	zzrt.Assert(zzQInit(q2, false, b2.noti) == nil, "restart-queue-init-succeeds")
 	type outRec struct {
